@@ -49,7 +49,11 @@ caption_send_event(vbi_decoder *vbi, vbi_event *ev)
 	/* Permits calling vbi_fetch_cc_page from handler */
 	pthread_mutex_unlock(&vbi->cc.mutex);
 
+	VERIF_YIELD(0);
+
 	vbi_send_event(vbi, ev);
+
+	VERIF_YIELD(1);
 
 	pthread_mutex_lock(&vbi->cc.mutex);
 }
@@ -1394,6 +1398,8 @@ vbi_decode_caption(vbi_decoder *vbi, int line, uint8_t *buf)
 
  finish:
 	pthread_mutex_unlock(&cc->mutex);
+
+	VERIF_YIELD(5);
 }
 
 /**
